@@ -24,7 +24,7 @@ HOSTILE = {
     "nan": ["NaN", "nan", "sNaN"],
     "infinity": ["Infinity", "-inf"],
     "empty": [""],
-    "blank": ["   ", "\t"],
+    "blank": ["   ", "\t", "target,\u00a0target", "target\u00a0< 3", "\u00a0", "\u2028x\u0085"],
     "nul": ["\x00", "a\x00b"],
     "backslash": ["\\", "\\x"],
     "badRegex": ["(", "[a", "*"],
@@ -50,6 +50,11 @@ HOSTILE = {
     "codecName": ["hex", "utf-16", "idna", "rot13", "base64", "zlib", "punycode", "undefined", "utf-7", "utf-32", "unicode_escape",
                   "utf_8_sig", "charmap", "a\x00b", "utf-16-le"],
     "repeatedPlaceholder": ["DD.DD.YYYY", "YYYY-YYYY", "hh:hh", "YY YYYY", "%d %d", "MM.MM.MM"],
+    "tokenizerBytes": ["\u00e4,\r\u00f6", "x\r\u00e9", "...\n\x00", " 1\n\x00", "\r\u20ac"],
+    "hugeExponent": ["1e-3000000000...1", "1e-3000000000, 5...3", "1e3000000000", "0...1e-99999999999"],
+    "deepNesting": ["(" * 1000 + "a" + ")" * 1000, "[" * 500 + "a" + "]" * 500, "((((" * 200],
+    "lineContinuation": ["\\\ntarget < 3", "target \\\n < 3", "\\\n"],
+    "builtinName": ["target or exit(7)", "target == id", "len", "target < len(dir())", "print"],
 }
 RULES = {"Integer": "0...99", "Decimal": "0...99.5", "Choice": "a, b", "Constant": "a", "DateTime": "YYYY-MM-DD", "Pattern": "a*",
          "RegEx": "a+", "Text": ""}
@@ -169,6 +174,10 @@ def _job(job):
     except _Exhausted as error:
         vec, picks = job
         return ["format %s, hostile %s: %s" % (vec["fmt"], [(t["where"], t["cell"], t["type"], c) for t, c in zip(vec["targets"], vec["classes"])], error)]
+    except SystemExit as error:
+        vec, picks = job
+        return ["format %s, hostile %s: lets escape SystemExit: %s (the process would end)" % (
+            vec["fmt"], [(t["where"], t["cell"], t["type"], c) for t, c in zip(vec["targets"], vec["classes"])], error.code)]
     finally:
         signal.alarm(0)
 
@@ -263,6 +272,8 @@ def cli_job(job):
         return _cli_job_unguarded(job)
     except _Exhausted as error:
         return ["format %s, hostile %s: the command line: %s" % (job[0]["fmt"], job[0]["classes"], error)]
+    except SystemExit as error:
+        return ["format %s, hostile %s: the command line lets escape SystemExit: %s" % (job[0]["fmt"], job[0]["classes"], error.code)]
     finally:
         signal.alarm(0)
 
